@@ -460,6 +460,23 @@ def guarded(col, rule_fn, *args):
         col.bad("anchor-missing", "%s" % rule_fn.__name__, "anchor missing while running %s: %s" % (rule_fn.__name__, e))
 
 
+class ShapeUnknown(Exception):
+    """Raised by a *narrow* rule (one written for a particular shape of a particular function) when the code no
+    longer has that shape.  Unlike AnchorMissing this is not a finding: the rule says nothing about code it
+    cannot read, and the run records that it was not applied."""
+    pass
+
+
+def guarded_soft(col, rule_fn, *args):
+    """Run a narrow, shape-bound rule: a missing anchor / unknown shape is recorded as `not applied`, not as a
+    violation (the broad rules of the same property still run and still fail closed)."""
+    try:
+        rule_fn(col, *args)
+    except (AnchorMissing, ShapeUnknown) as e:
+        col.note("%s not applied in %s: %s" % (rule_fn.__name__, col.config, e))
+        col.assumed("not-applied", "%s" % rule_fn.__name__, "shape-bound rule not applied: %s" % e)
+
+
 def find_fn_suffix(facts, crate, suffix, required=True):
     """The unique function of `crate` whose generic-stripped path ends with `suffix`."""
     c = [f for f in facts.all_fns() if f.crate == crate and f.short.endswith(suffix) and f.kind != "Closure"]
